@@ -311,16 +311,18 @@ func c19GenR6(r *RNG, tier string) []C19Spec {
 	return out
 }
 
-// A registered decoration as the Coq side gets it: the string fields themselves; Model/DecorCells.v's
+// A registered decoration as the Coq side gets it: the string (and bool) fields themselves; Model/DecorCells.v's
 // [abstract] decides there - from the fields, not from a flag set here - whether it is the zero value.
 func c19DecCoq(nt *nameTable, id int) string {
 	if id <= 0 || id >= len(regPalette) {
 		return cqDec(id)
 	}
 	v := reflect.ValueOf(regPalette[id])
-	var fs []string
+	var fs, flags []string
 	for i := 0; i < v.NumField(); i++ {
-		if f := v.Field(i); f.Kind() == reflect.String {
+		if f := v.Field(i); f.Kind() == reflect.Bool {
+			flags = append(flags, cqBool(f.Bool()))
+		} else if f.Kind() == reflect.String {
 			if f.Len() == 0 {
 				fs = append(fs, "[]")
 			} else {
@@ -328,5 +330,5 @@ func c19DecCoq(nt *nameTable, id int) string {
 			}
 		}
 	}
-	return fmt.Sprintf("(abstract %d%%N (mkCD %s))", id, cqList(fs))
+	return fmt.Sprintf("(abstract %d%%N (mkCD %s %s))", id, cqList(flags), cqList(fs))
 }
